@@ -42,7 +42,7 @@ func c15R1(c *Ctx, id string) {
 		_, cb, _ := compactCallback(c)
 		var seqParam *ssa.Parameter
 		for _, p := range cb.Params {
-			if p.Name() == "seq" || strings.HasSuffix(p.Type().String(), "uint64") {
+			if strings.HasSuffix(p.Type().String(), "uint64") {
 				seqParam = p
 			}
 		}
@@ -115,8 +115,8 @@ func c15R1(c *Ctx, id string) {
 		okF := false
 		eachInstr(wb, func(in ssa.Instruction) {
 			if call, ok := in.(*ssa.Call); ok {
-				if p, isP := resolveCell(call.Call.Value).(*ssa.Parameter); isP && p.Name() == "fn" && len(call.Call.Args) == 4 {
-					if sp, isP2 := resolveCell(call.Call.Args[3]).(*ssa.Parameter); isP2 && sp.Name() == "seq" {
+				if p, isP := resolveCell(call.Call.Value).(*ssa.Parameter); isP && isFuncTyped(p) && len(call.Call.Args) == 4 {
+					if sp, isP2 := resolveCell(call.Call.Args[3]).(*ssa.Parameter); isP2 && strings.HasSuffix(sp.Type().String(), "uint64") {
 						okF = true
 					}
 				}
@@ -223,7 +223,7 @@ func c15R3(c *Ctx, id string) {
 		// Compact: src flows only into walk
 		var src *ssa.Parameter
 		for _, p := range cp.Params {
-			if p.Name() == "src" {
+			if len(cp.Params) >= 2 && p == cp.Params[1] { // Compact(dst, src, txMaxSize)
 				src = p
 			}
 		}
@@ -343,7 +343,7 @@ func c15R4(c *Ctx, id string) {
 			// the callback's error
 			eachInstr(fn, func(in ssa.Instruction) {
 				if call, ok := in.(*ssa.Call); ok {
-					if p, isP := resolveCell(call.Call.Value).(*ssa.Parameter); isP && p.Name() == "fn" {
+					if p, isP := resolveCell(call.Call.Value).(*ssa.Parameter); isP && isFuncTyped(p) {
 						m := errorHandled(call)
 						c.check(id+":"+shortFn(fn)+":callback-error", fn, call.Pos(), "walkBucket returns the callback's error", m == "", m)
 					}
